@@ -1,7 +1,7 @@
 """C25 Host state changes keep a single reconnector and notify listeners once (W-FULL)."""
 from dsim import seams
 from dsim.core import HarnessError
-from props.common import gen_stalls, gen_strategy, quiet_logging, Violations, set_knob
+from props.common import gen_stalls, gen_strategy, quiet_logging, Violations, set_knob, line_offset
 from worlds.full import FullWorld, default_cluster_spec, ReqObs
 
 ID = 'C25'
@@ -126,13 +126,29 @@ def gen_plan(rng, tier):
         slow = {'node': i, 'mult': mult}
         fixed = {'window': 0, 'reconnect_delay': d}
         nsessions = 2
+    deep = None
+    if slow is None and not fixed and rng.random() < 0.1:
+        # two sessions; the thread handling "host may be up" is descheduled between asking the first and the second session for a
+        # pool, long enough for the first pool to be ready (or to fail) before the second is asked
+        i = rng.randrange(1, n)
+        events = [{'at': 0.4, 'kind': 'crash', 'node': i, 'how': 'rst', 'announce': rng.choice([None, 0.01])},
+                  {'at': round(0.4 + rng.choice([0.2, 0.6]), 3), 'kind': 'restart', 'node': i, 'how': 'rst', 'announce': rng.choice([None, 0.0])}]
+        if rng.random() < 0.4:
+            events.append({'at': round(events[1]['at'] + rng.choice([0.3, 0.8]), 3), 'kind': 'refuse_pool_once', 'node': i, 'how': 'rst', 'announce': None})
+        nsessions = 2
+        where = rng.choice(['future = session.add_or_renew_pool', 'future.add_done_callback', 'have_future = True', 'futures.add(future)'])
+        deep = [['on_up', line_offset('cassandra.cluster', 'Cluster.on_up', where, 48), rng.choice([0.05, 0.2, 0.5]), rng.choice([2, 4])]]
     plan_ = {'cluster': default_cluster_spec(n), 'version': 4, 'events': events, 'sessions': nsessions, 'slow_connect': slow,
             'executor_threads': rng.choice([1, 2, 4]), 'window': rng.choice([0, 0.2, 1.0]),
             'reconnect_delay': rng.choice([0.3, 0.7, 1.5]), 'traffic': rng.random() < 0.6,
             'strategy': gen_strategy(rng), 'time_jump_p': 0, 'line_p': rng.choice([0, 0, 0.005]), 'points': rng.choice([0, 2, 4]),
-            'stalls': gen_stalls(rng, ['on_up', 'on_down', '_start_reconnector', 'on_remove', '_on_up_future_completed', 'run'], 0.25)}
+            'stalls': gen_stalls(rng, ['on_up', 'on_up', 'on_down', '_start_reconnector', 'on_remove', '_on_up_future_completed', 'run'], 0.3, max_line=72)}
     plan_.update(plan_.pop('stalls'))
     plan_.update(fixed)
+    if deep:
+        plan_.pop('focus_stall', None)
+        plan_.pop('stall', None)
+        plan_['deep_stalls'] = deep
     return plan_
 
 
@@ -242,7 +258,7 @@ def run_plan(plan, seed, choices=None):
 
         def on_remove(self, host):
             pass
-    if plan.get('line_p') or plan.get('points') or plan.get('focus_stall'):
+    if plan.get('line_p') or plan.get('points') or plan.get('focus_stall') or plan.get('deep_stalls'):
         C = w.ccl.Cluster
         sim.enable_line_preemption([C.on_up, C.on_down, C._start_reconnector, C.on_remove, C._on_up_future_completed,
                                     w.cpool._ReconnectionHandler.run], p=plan.get('line_p', 0), points=plan.get('points', 0), est_lines=2000)
